@@ -93,6 +93,8 @@ type StreamM struct {
 	WUSent       int64 // sum of stream WINDOW_UPDATEs sent
 	Recv         int64 // DATA bytes received
 
+	LastSend   int    // log seq of the newest frame sent on this stream
+	MinInit    int64  // smallest SETTINGS_INITIAL_WINDOW_SIZE of ours that may have applied to this stream
 	Tainted    string // non-empty: stream state at the server is uncertain
 	FCDirty    string // non-empty: the client did something that may justify a FLOW_CONTROL_ERROR
 	WUOnNeg    bool   // a WINDOW_UPDATE was sent while our receive window for this stream was negative
@@ -143,6 +145,8 @@ type Model struct {
 	badTokens map[int]string // tokens of SYN_STREAMs the server had to refuse -> shape
 	nextSyn   *SynInfo
 	rstLog    []rstRec
+
+	lastSendAny int
 
 	// observation counters
 	Obs map[string]int64
@@ -285,6 +289,30 @@ func (m *Model) OnEvent(ev *Event) {
 	}
 }
 
+// GateOpened tells the model that the script lets the handler of token
+// proceed. The bounds used to classify frames already sent (what the handler
+// can have consumed, that it cannot have returned) only hold while the server
+// processes them, so if any frame may still be unprocessed (no answered PING
+// since) every obligation derived from those bounds is dropped.
+func (m *Model) GateOpened(token int) {
+	if m.lastSendAny <= m.lastPong || m.Dead() {
+		return
+	}
+	m.Obs["gate_opened_with_frames_in_flight"]++
+	m.taintConn("gate-opened-with-frames-in-flight")
+	for _, e := range m.expects {
+		if e.kind == exOverWindow {
+			e.done = true
+		}
+	}
+	for _, s := range m.order {
+		s.taint("gate-opened-with-frames-in-flight")
+		if s.Tainted == "over-window" {
+			s.DeliverCap, s.CapWhy = -1, ""
+		}
+	}
+}
+
 // ---- frames we send --------------------------------------------------------
 
 // SynInfo describes the request carried by a SYN_STREAM about to be sent; the
@@ -299,6 +327,10 @@ type SynInfo struct {
 func (m *Model) NextSyn(info SynInfo) { m.nextSyn = &info }
 
 func (m *Model) onSend(ev *Event) {
+	if st := m.streams[ev.Stream]; st != nil && ev.Stream != 0 {
+		st.LastSend = ev.Seq
+	}
+	m.lastSendAny = ev.Seq
 	switch ev.Kind {
 	case KSynStream:
 		m.sendSyn(ev)
@@ -362,7 +394,7 @@ func (m *Model) sendSyn(ev *Event) {
 		return
 	}
 	m.maxSynID = id
-	s := &StreamM{ID: id, Token: ev.Token, SynSeq: ev.Seq, HasBody: !ev.Fin(), DeclLen: info.DeclLen, DeliverCap: -1}
+	s := &StreamM{ID: id, Token: ev.Token, SynSeq: ev.Seq, LastSend: ev.Seq, HasBody: !ev.Fin(), DeclLen: info.DeclLen, DeliverCap: -1, MinInit: m.minInit()}
 	if ev.Fin() {
 		s.ClientFin = true
 	}
@@ -560,6 +592,9 @@ func (m *Model) sendSettings(ev *Event) {
 		}
 		m.initPending = append(m.initPending, pendingInit{val: v, seq: ev.Seq})
 		for _, s := range m.order {
+			if v < s.MinInit {
+				s.MinInit = v
+			}
 			if v+s.WUSent > MaxWindow {
 				s.taint("settings-maybe-overflow")
 				s.dirty("settings-maybe-overflow")
@@ -728,7 +763,7 @@ func (m *Model) afterEnd(ev *Event, s *StreamM) bool {
 func (m *Model) recvData(ev *Event) {
 	L := int64(ev.Len)
 	m.dataRecv += L
-	if m.RecvAllowConn() < 0 {
+	if L > 0 && m.RecvAllowConn() < 0 {
 		m.viol(ev.Seq, "outbound:session-window-exceeded",
 			"DATA of %d bytes on stream %d: server has now sent %d bytes but the session window only ever allowed %d (65536 + %d of WINDOW_UPDATE)",
 			L, ev.Stream, m.dataRecv, DefaultWindow+m.wu0Sent, m.wu0Sent)
@@ -743,7 +778,7 @@ func (m *Model) recvData(ev *Event) {
 	m.afterEnd(ev, s)
 	off := s.Recv
 	s.Recv += L
-	if m.RecvAllowStream(s) < 0 {
+	if L > 0 && m.RecvAllowStream(s) < 0 {
 		m.viol(ev.Seq, "outbound:stream-window-exceeded",
 			"DATA of %d bytes on stream %d: %d bytes received but the stream window only ever allowed %d (initial window at most %d + %d of WINDOW_UPDATE)",
 			L, s.ID, s.Recv, m.maxInit()+s.WUSent, m.maxInit(), s.WUSent)
@@ -857,15 +892,17 @@ func (m *Model) checkSpuriousFC(ev *Event, s *StreamM) {
 			return
 		}
 	}
+	// could the server's send window of the stream have been negative (after a
+	// SETTINGS shrink) when it processed the accused frame?
 	shape := "other"
 	neg := false
 	for _, x := range m.order {
-		if (s == nil || x == s) && (x.WUOnNeg || m.RecvFloorStream(x) < 0) {
+		if (s == nil || x == s) && (x.WUOnNeg || x.MinInit-x.Recv < 0) {
 			neg = true
 		}
 	}
 	if neg {
-		shape = "send-window-negative-after-settings-shrink"
+		shape = "send-window-possibly-negative"
 	}
 	where := "GOAWAY"
 	id := uint32(0)
